@@ -295,7 +295,8 @@ CLAIMED["C14"] = dict(
          "unlock sections are those of running the calls one after the other in the order they took effect, each thread's calls "
          "in program order, none lost or duplicated (section_linearizable, section_read_is_current); hence the arena behind the "
          "mutex satisfies C01's invariant - all blocks handed out to whichever thread are disjoint (shared_arena_blocks_exclusive) "
-         "- and all lookups of one locale code return one object (locale_cache_consistent); atomic counters count every increment "
+         "- all lookups of one locale code return one object (locale_cache_consistent), and a first-use initialiser modelled as such a "
+         "section has run exactly once as soon as one call completed, whatever the number of callers (once_runs_once); atomic counters count every increment "
          "(counters_exact), a plain increment does not (plain_increment_loses_update).",
     note="PARTIAL. Not a theorem: that pthread mutexes / once / thread-specific keys implement the model's lock and once steps; "
          "compiler and hardware reordering (the model is sequentially consistent; outside critical sections only the race "
